@@ -51,7 +51,7 @@ def showExc : Exc → String
 
 def showOutcome : Outcome → String
   | .fresh => "fresh"
-  | .loaded v n => s!"loaded:{v}:{n}"
+  | .loaded v n w m => s!"loaded:{v}:{n}:{w}:{m}"
   | .raises e => s!"raises:{showExc e}"
 
 def parseKind? : String → Option Kind
@@ -141,7 +141,7 @@ def handle (toks : List String) : String :=
     | some kind, some e, some evs =>
       let s := replay kind Gen.protocol evs
       let ops := match e with
-        | .ckpt se v n len _ => dyn .ckpt ⟨v, ckptN kind n s.mem, len, .tornPickle⟩ (Gen.protocol.dump se) s.fs
+        | .ckpt se v n len _ => dyn .ckpt ⟨v, s.mem, len, .tornPickle⟩ (Gen.protocol.dump se) s.fs
         | .train w len e _ => dyn (trainFam kind s.mem) ⟨w, 0, len, e⟩ Gen.protocol.saveWeights s.fs
       " ".intercalate (ops.map showOp)
     | _, _, _ => "bad-op"
@@ -164,7 +164,7 @@ def handle (toks : List String) : String :=
     let c := Gen.protocol.cfg
     s!"safe={showBool c.weights.safe} first={showSuffix c.first}{showNames c.catchFirst} " ++
     s!"second={showSuffix c.second}{showNames c.catchSecond} guard={showBool c.weights.guardExists} " ++
-    s!"wcatch={showNames c.weights.excs}"
+    s!"wcatch={showNames c.weights.excs} onMissing={showBool c.weights.onMissing} resetPath={showBool c.weights.resetPath}"
   | _ => "bad-op"
 
 end NessaiVerif.Driver.CrashFS
